@@ -237,4 +237,20 @@ var props = map[string]*Prop{
 			{Name: "process-configurations", Pkg: "internal/cli", Test: "TestVerifC01Configs", Shards: sh(3, 3), Builds: []Build{{Pkg: "cmd/sfw", Out: "sfw"}}},
 		},
 	},
+	"C10": {
+		Level: "model_checking",
+		Rule: "(1) every range over a map in pkg/diff, pkg/detection and pkg/analysis/topology is a choice point (overlay from the working tree); function matching (4 file pairs with twin shapes, ties among rename candidates, mixed renames/additions) and signature matching/indexing (several callees satisfying one required call) are run for every execution with <=1 (quick) / <=2 (thorough) deviating sites and must render identically; (2) check.go and scan.go are rebuilt against scheduler shims of sync and errgroup: ALL interleavings of the per-file workers of ProcessFilesParallel (3 files incl. a broken one; strict+scan) and of RunScanLogic over a tree whose packages contain same-named functions matching different signatures at equal confidence; (3) the built binary: diff, check, check --scan, scan (json, pebble, exact) as fresh processes for GOMAXPROCS {1,2,16} x 3 repetitions. Oracle: byte-identical output. states = distinct outputs per scenario (must be 1) / distinct lock orders, transitions = decisions, traces = executions of the real code.",
+		Assumptions: []string{"fingerprints themselves are run-independent (C01)", "maps with more than four keys: permutation menu only"},
+		Bounds:      map[string]string{"quick": "<=1 deviating map site; all worker interleavings; 9 process runs per command", "thorough": "<=2 deviating map sites"},
+		Units: []Unit{
+			{Name: "report-layer-map-orders", Pkg: "pkg/diff", Test: "TestVerifC10Match", Tags: []string{"verif_sched"}, Shards: sh(4, 4), GoMaxProcs: 2, TimeoutS: sh(1800, 3600), DeadlineS: sh(600, 2400),
+				Profile: ovgen.Profile{MapRanges: []string{"pkg/diff", "pkg/detection", "pkg/analysis/topology"}}},
+			{Name: "worker-schedules", Pkg: "internal/cli", Test: "TestVerifC10Workers", Tags: []string{"verif_workers"}, Shards: sh(3, 3), GoMaxProcs: 2, TimeoutS: sh(1800, 3600), DeadlineS: sh(600, 2400),
+				Profile: ovgen.Profile{Imports: []ovgen.ImportRewrite{
+					{File: "internal/cli/check.go", Map: map[string]string{"sync": ovgen.ShimBase + "vsync", "golang.org/x/sync/errgroup": ovgen.ShimBase + "verrgroup"}},
+					{File: "internal/cli/scan.go", Map: map[string]string{"sync": ovgen.ShimBase + "vsync", "golang.org/x/sync/errgroup": ovgen.ShimBase + "verrgroup"}},
+				}}},
+			{Name: "process-repetitions", Pkg: "internal/cli", Test: "TestVerifC10Configs", Shards: sh(6, 6), Builds: []Build{{Pkg: "cmd/sfw", Out: "sfw"}}},
+		},
+	},
 }
